@@ -269,7 +269,7 @@ pub fn generate(seed: u64, w: &World, with_big: bool, with_stalls: bool) -> Valu
         "arg_forms": rng.next_u64() & 0x7ff,
         // fault on the storage side: the output target (file or stdout) is a full device that
         // accepts no bytes (/dev/full)
-        "sink": if rng.chance(1, 25) { "dev-full" } else { "normal" },
+        "sink": match rng.below(50) { 0 | 1 => "dev-full", 2 => "is-dir", _ => "normal" },
         "env": *rng.pick(&["clean", "clean", "rust-log-trace", "rust-log-cli-info", "locale-tz", "rust-log-trace"]),
         "fixture": fx.name,
         "script": script,
